@@ -72,9 +72,20 @@ def read_mem(src, password=None, **kw):
     return names, f.as_dict()
 
 
+def _scratch_base(big=False):
+    """tmpfs is an order of magnitude faster for the metadata-heavy workloads (C03: >100k extractions);
+    cases that write gigabytes (C20) stay on the ordinary temp dir."""
+    base = os.environ.get("VF_SCRATCH")
+    if base:
+        return base
+    if not big and os.path.isdir("/dev/shm") and os.access("/dev/shm", os.W_OK):
+        return "/dev/shm"
+    return None
+
+
 @contextlib.contextmanager
-def scratch(prefix="vf-"):
-    d = tempfile.mkdtemp(prefix=prefix)
+def scratch(prefix="vf-", big=False):
+    d = tempfile.mkdtemp(prefix=prefix, dir=_scratch_base(big))
     try:
         yield d
     finally:
